@@ -53,10 +53,10 @@ from bisturi.packet import PacketError
         if self.generate_for_pack:
             pack_code = '''
 def pack_impl(pkt, fragments, **k):
-%(sync_descriptors_code)s
    k['innermost-pkt-pos'] = fragments.current_offset
    fields = pkt.get_fields()
    try:
+%(sync_descriptors_code)s
 %(blocks_of_code)s
    except PacketError as e:
       e.add_parent_field_and_packet(fragments.current_offset, name, pkt.__class__.__name__)
@@ -69,8 +69,11 @@ def pack_impl(pkt, fragments, **k):
                 'blocks_of_code':
                 indent("\n".join([c[0] for c in codes]), level=2),
                 'sync_descriptors_code':
-                self.generate_unrolled_code_for_descriptor_sync(
-                    sync_for_pack=True
+                indent(
+                    self.generate_unrolled_code_for_descriptor_sync(
+                        sync_for_pack=True
+                    ),
+                    level=1
                 ),
             }
         else:
@@ -208,8 +211,13 @@ def unpack_impl(pkt, raw, offset, **k):
         if not sync_methods:
             return ""
 
-        sync_calls = '\n'.join('   sync_methods[%i](pkt)' % i \
-                                            for i in range(len(sync_methods)))
+        # 'name' tells the error handler which (described) field was being
+        # computed if the sync function fails
+        sync_calls = '\n'.join(
+            '   name = %r\n   sync_methods[%i](pkt)' %
+            (getattr(m.__self__, 'descriptor_name', None), i)
+            for i, m in enumerate(sync_methods)
+        )
         return setup_code + sync_calls
 
     def generate_code_for_fixed_fields(self, fields):
